@@ -161,6 +161,7 @@ pub fn base_plan(inst: Inst, mode: &str, rng: &mut Rng, reports: usize) -> PlanA
         agg: gen_agg_plan(rng, n, reports, false),
         skew: None,
         timeouts: false,
+        store_faults: Vec::new(),
         inst,
     }
 }
@@ -479,6 +480,7 @@ impl<'a> Visitor for ExecVis<'a> {
                     ctx.counters.inc("c03.heavy_hitter_runs");
                 }
             }
+            "codec" => {}
             "honest" => judge_honest(plan, &pass, &mut ctx),
             "tamper" | "byz" => judge_robust(plan, &pass, &mut ctx, ad, &rerun)?,
             "skew" => judge_skew(plan, &pass, &mut ctx, &rerun, vdaf, ad)?,
